@@ -131,7 +131,14 @@ func (srv4) Sender(t *simrt.Tape) net.Addr {
 	case 3:
 		return &net.UDPAddr{IP: net.IP{0, 0, 0, 0}, Port: port} // 4-byte form
 	}
-	return &net.UDPAddr{IP: net.IPv4(192, 168, byte(t.Choose(3)), byte(1+t.Choose(200))), Port: port}
+	ip := net.IPv4(192, 168, byte(t.Choose(3)), byte(1+t.Choose(200))) // 16-byte, IPv4-mapped form
+	switch t.Weighted(3, 1, 1) {
+	case 1:
+		ip = ip.To4()
+	case 2:
+		return &net.UDPAddr{IP: ip, Port: port, Zone: "eth1"}
+	}
+	return &net.UDPAddr{IP: ip, Port: port}
 }
 
 type srv6 struct{}
@@ -167,10 +174,14 @@ func (srv6) Valid(i int, t *simrt.Tape) []byte {
 	if t.Coin(1, 3) {
 		// the hand-encoded corpus of C08: every option type, relay chains
 		var b []byte
-		if t.Coin(1, 2) {
+		switch t.Weighted(2, 1, 2) {
+		case 0:
 			b = v6Message(t.Choose(40))
 			b[1], b[2], b[3] = 0x52, byte(i>>8), byte(i)
-		} else {
+		case 1:
+			b = v6Shuffled(t.Choose(40), t) // drawn subset and order of options, some twice
+			b[1], b[2], b[3] = 0x53, byte(i>>8), byte(i)
+		default:
 			b = v6Relay(t.Choose(40), 1+t.Choose(3))
 			b[1] = byte(i) // hop count: makes relayed datagrams distinguishable
 		}
